@@ -221,6 +221,7 @@ cdef class Explicit_RungeKutta:
         self._norm_front = self._norm_prev
 
         #prepare the buffers
+        self.k = []
         for i in range(self.rk_extra_step):
             self.k.append(self._y.copy())
         self._y_temp = self._y.copy()
